@@ -906,4 +906,9 @@ def run(res, tier):
         res.extra["bdd_nodes_total"] = nodes
         res.extra["tables"] = {t.uid: {"bits": len(t.bits), "input_bits": t.input_bits, "cmux_nodes": sum(1 for b in t.bits for n in b[0] if n[0] == "cmux")} for t in tables.values()}
         res.fn_count += 3 + len(tables)
+        # output bit i must be produced by circuit i: in the multi-threaded evaluators this is the exact-partition index identity (shared with C20)
+        from . import c20
+        if "THR-4" not in res.rules:
+            res.rule("THR-4", "output bit i is filled by circuit i in the multi-threaded evaluators: work-item index = lo + thread*chunk + local with chunk = items.div_ceil(threads) (shared with C20)")
+        c20.thr4(p, res)
     res.extra["exhaustive"] = True
